@@ -662,6 +662,10 @@ func expiringItems(r *rep.Report, e rep.Env) {
 				loc.AddFact(ctx, fmt.Sprintf("short%d", i), core.Map{"k": "short", "n": float64(i), "ttl": 1.0})
 				loc.AddFact(ctx, fmt.Sprintf("long%d", i), core.Map{"k": "long", "n": float64(i)})
 			}
+			duels := e.Pick(300, 1500)
+			for i := 0; i < duels; i++ {
+				loc.AddFact(ctx, fmt.Sprintf("duel%d", i), core.Map{"k": "duel", "ttl": 1.0})
+			}
 			time.Sleep(2100 * time.Millisecond)
 			r.Journal(rep.J{"expiring_items": round, "state": kind})
 			var wg sync.WaitGroup
@@ -704,6 +708,38 @@ func expiringItems(r *rep.Report, e rep.Env) {
 			}
 			close(gate)
 			wg.Wait()
+			// duels: for each expired id that nobody has looked at yet, two readers fetch it at the very moment
+			// a writer puts a new, never-expiring fact under it; the acknowledged new fact must stay
+			var renewed int64
+			for i := 0; i < duels; i++ {
+				id := fmt.Sprintf("duel%d", i)
+				var dw sync.WaitGroup
+				start := make(chan bool)
+				for g := 0; g < 2; g++ {
+					dw.Add(1)
+					go func() {
+						defer dw.Done()
+						<-start
+						if _, err := loc.GetFact(drv.Ctx(), id); err != nil {
+							if _, nf := err.(*core.NotFoundError); !nf {
+								note(err)
+							}
+						}
+					}()
+				}
+				dw.Add(1)
+				go func() {
+					defer dw.Done()
+					<-start
+					if _, err := loc.AddFact(drv.Ctx(), id, core.Map{"k": "renewed"}); err != nil {
+						note(err)
+					} else {
+						atomic.AddInt64(&renewed, 1)
+					}
+				}()
+				close(start)
+				dw.Wait()
+			}
 			loc2, rerr := drv.NewLoc("X", kind, vstore.MemFrom(vstore.CopyState(store.State(drv.Ctx()))))
 			r.Case(true, fmt.Sprint("expiring", e.BatchSeed(), round, kind))
 			r.Count("expiring_item_rounds", 1)
@@ -720,10 +756,12 @@ func expiringItems(r *rep.Report, e rep.Env) {
 				shorts, _ := l.SearchFacts(drv.Ctx(), core.Map{"k": "short"}, false)
 				longs, _ := l.SearchFacts(drv.Ctx(), core.Map{"k": "long"}, false)
 				rules, _ := l.ListRules(drv.Ctx(), false)
-				if shorts == nil || longs == nil || len(shorts.Found) != 0 || len(longs.Found) != 40 || len(rules) != 6 {
+				again, _ := l.SearchFacts(drv.Ctx(), core.Map{"k": "renewed"}, false)
+				if shorts == nil || longs == nil || again == nil || len(shorts.Found) != 0 || len(longs.Found) != 40 || len(rules) != 6 || int64(len(again.Found)) != renewed {
 					wit["view"] = name
-					if shorts != nil && longs != nil {
+					if shorts != nil && longs != nil && again != nil {
 						wit["expired_found"], wit["unexpired_found"], wit["rules"] = len(shorts.Found), len(longs.Found), len(rules)
+						wit["renewed_acknowledged"], wit["renewed_found"] = renewed, len(again.Found)
 					}
 					r.Violate("", "after concurrent reads of expiring items the location does not hold exactly the unexpired ones", wit)
 				}
